@@ -15,6 +15,7 @@ class Result:
     nontrivial: bool  # per the harness' stated rule
     violations: list[dict] = field(default_factory=list)
     obs: Any = None  # JSON-able observation log (determinism digest, replay print-out)
+    steps: int = 0  # library operations executed with the oracle evaluated after each of them
 
 
 def viol(clause: str, witness: str, expected: Any, observed: Any, **extra: Any) -> dict:
@@ -118,8 +119,8 @@ def explore(  # noqa: PLR0913, PLR0912, C901
                 counted_program = True
             stats.executions += 1
             p = len(prefix)
-            stats.states += len(choices) - p + 1
-            stats.transitions += len(choices) - p + (1 if p else 0)
+            stats.states += len(choices) - p + 1 + res.steps
+            stats.transitions += len(choices) - p + (1 if p else 0) + res.steps
             if res.nontrivial:
                 stats.nontrivial += 1
             stats.max_depth = max(stats.max_depth, len(choices))
